@@ -204,4 +204,22 @@ theorem C16_crate_args_rejected (pre post : List RawAttr) (b : DWBody) (cp p : M
   rw [findCrate_skip_all pre _ none hpre]
   rcases hv with rfl | rfl <;> simp [findCrate, hb, Meta.getPath, hcp, hargs]
 
+/-- **The second visit.**  A later `#[<crate>::derive_where(..)]` attribute written with a qualified path makes rustc
+invoke the attribute macro again, on the item as the first visit left it: with `#[<crate>::derive_where_visited]`
+behind its attributes (`C16_stage1_forward`: the marker follows the item's own attributes).  Whatever else that item
+carries, the macro refuses it with the documented "already applied" error and re-emits it without helper attributes;
+nothing is derived twice. -/
+theorem C16_second_visit (raw : RawItem) (segs : List Seg) (crate_ : Option MPath)
+    (hc : findCrate raw.attrs none = .ok crate_)
+    (hm : RawAttr.bare ((crate_.getD dwRoot).pushIdent "derive_where_visited") ∈ raw.attrs) :
+    stage1 raw segs = .failed .visited (stripDeriveWhere segs) := by
+  unfold stage1
+  simp only [hc]
+  have : (raw.attrs.any fun a => match a with
+      | .bare p => p == (crate_.getD dwRoot).pushIdent "derive_where_visited"
+      | _ => false) = true := by
+    rw [List.any_eq_true]
+    exact ⟨_, hm, by simp⟩
+  simp [this]
+
 end DW
